@@ -345,7 +345,7 @@ fn exec_noreuse(req: &str) -> String {
     if t[1] == "mac" {
         let count: usize = t[2].parse().unwrap();
         let seed: u64 = t[3].parse().unwrap();
-        return block_on_timeout(120, mac_batches(count, seed)).unwrap_or_else(|e| e);
+        return block_on_timeout(30, mac_batches(count, seed)).unwrap_or_else(|e| e);
     }
     // c06.noreuse dzkp <ty> <count> <records per batch> <seed>  ==> the C03 executor on the validate_record API
     let inner = format!("c03.validate {} {} {} {} {} -", t[2], t[3], t[4], t[5], t[6]);
